@@ -15,11 +15,16 @@
 
     Modelling decisions (all stated in checks/meta/C07.json and design_notes/C07.md):
     * File system = finite map from library key to [doc]; a key that is absent is a missing file.
-    * URL resolution is pre-resolved: every file lives in ONE directory and every import URL is a plain
-      file name, so the library key of URL [u] is [mk_key u] = directory ++ u with a fixed non-empty
-      directory (here "/"); the code keeps raw URLs and keys apart (performTestWithHistory compares raw
-      URLs, the importer compares keys) and so does the model.  The first look-up of fetchModel under the
-      raw URL never hits because no raw URL is a key.
+    * URL resolution: the library key of an import URL written in a file is the base directory of that file ++ the
+      URL as written ([key_of], importer.cpp: resolvePath; nothing is normalised but the directory separator, so
+      "a/../f.cellml" and "f.cellml" are different keys).  The base path that the code threads through fetchUnits /
+      fetchComponent (newBase = baseFile + pathFromUrl(url)) is the directory part of the key of the imported model
+      (ImportProofs.new_base_dir), so the model derives it from the owner ([base_of]); the base path given to
+      resolveImports is the fixed directory [dir_prefix] (the origin file lives there).  Which spelled keys reach
+      which file is the operating system's business: the file system of the model maps keys AS SPELLED to
+      contents (the generator computes the reachable spellings).  The code's distinction between raw URLs (compared
+      by performTestWithHistory) and keys (compared by the importer) is kept.  The first look-up of fetchModel
+      under the raw URL (absolute URLs already in the library) is not modelled.
     * Identity of the C++ objects: a model object is named by its [owner] (the origin model, or the
       library entry under a key); an ImportSource object by the tag [sid] carried by the entities that share
       it (one <import> element = one ImportSource); its weak link mModel is the pair (owner, sid) in [links]
@@ -73,15 +78,13 @@ Fixpoint fs_get (fs : fsys) (k : string) : doc :=
   | (k', d) :: r => if String.eqb k' k then d else fs_get r k
   end.
 
-(* directory of the flat file system; mk_key = importer.cpp: resolvePath(url, base) for a plain file name *)
+(* the base directory given to resolveImports; mk_key = the key of a plain file name in it (= key_of None) *)
 Definition dir_prefix : string := "/".
 Definition mk_key (url : string) : string := String.append dir_prefix url.
 
 (* importer.cpp: normaliseDirectorySeparator, normalisePath, pathFromUrl, resolvePath -- the string functions that
-   turn (import URL, base path) into a library key.  The import model below uses them only through [mk_key]
-   (flat directory); they are transcribed and compared with the code separately (driver mode "paths"), and
-   ImportProofs.resolve_path_flat shows that for a normalised directory and a plain file name they give
-   directory ++ name and leave the base path unchanged. *)
+   turn (import URL, base path) into a library key ([key_of] below).  They are also compared with the code on
+   their own (driver mode "paths"). *)
 Fixpoint norm_sep (s : string) : string :=
   match s with
   | EmptyString => EmptyString
